@@ -600,6 +600,185 @@ fn check_bounded(row: &BTreeMap<usize, i32>, loc: &[i16; 2], got: i32) -> Result
     Ok(())
 }
 
+
+// ---------------------------------------------------------------------------
+// (b3) degenerate region axes: the specification says such an axis is ignored (contributes 1):
+//   start < 0 < end with a non-zero peak; peak = 0; start > peak or peak > end.
+// Plus start = peak = end. Evaluated everywhere, including outside [start, end], alone and mixed with
+// an ordinary axis / an ordinary region; compute_delta against the exact reference and against
+// compute_float_delta (two implementations of the same function).
+// ---------------------------------------------------------------------------
+
+fn degenerate_axes() -> Vec<(i16, i16, i16)> {
+    let (h, q) = (ONE / 2, ONE / 4);
+    vec![
+        (-h, q, ONE),       // crosses zero, positive peak: ignored
+        (-ONE, h, ONE),     // crosses zero: ignored
+        (-h, -q, h),        // crosses zero, negative peak: ignored
+        (-ONE, -ONE, ONE),  // crosses zero, peak at start: ignored
+        (-q, ONE, ONE),     // crosses zero, peak at end: ignored
+        (-ONE, 0, ONE),     // peak 0: ignored
+        (0, 0, 0),          // peak 0: ignored
+        (h, q, ONE),        // start > peak: ignored
+        (0, ONE, h),        // peak > end: ignored
+        (h, h, h),          // a single point
+        (-h, -h, -h),       // a single point
+        (ONE, ONE, ONE),    // a single point at the end of the axis
+        (q, h, ONE),        // ordinary intermediate tent (control)
+        (0, h, h),          // ordinary (control)
+    ]
+}
+
+fn bounded_terms(terms: &[(RegionSpec, i32)], loc: &[i16; 2], got: i32) -> Result<f64, String> {
+    const SH: u32 = 40;
+    let mut sum: i128 = 0;
+    let mut abs: i128 = 0;
+    for (r, delta) in terms {
+        let (n, d) = tent(r, loc);
+        sum += ((*delta as i128) * n << SH).div_euclid(d);
+        abs += (*delta as i128).abs();
+    }
+    let bound = abs * 2 * (1i128 << (SH - 16)) + (1i128 << (SH - 1)) + 8;
+    let diff = ((got as i128) << SH) - sum;
+    let exact = sum as f64 / (1u64 << SH) as f64;
+    if diff.abs() > bound {
+        return Err(format!("compute_delta = {got}, exact sum = {exact:.6}, allowed error {:.6}", bound as f64 / (1u64 << SH) as f64));
+    }
+    Ok(exact)
+}
+
+fn compute_delta_degenerate(run: &Run) {
+    use read_fonts::tables::variations::FloatItemDeltaTarget;
+    let axes0 = degenerate_axes();
+    let axes1: Vec<(i16, i16, i16)> = vec![(0, 0, 0), (0, ONE, ONE), (-ONE / 2, ONE / 4, ONE), (ONE / 2, ONE / 2, ONE / 2)];
+    let deltas = [1i32, -129, 32767, 100_000];
+    let ordinary: RegionSpec = REGIONS[0];
+    // rows: one degenerate region alone, and the same plus the ordinary region R0 with delta 1000
+    let mut rows: Vec<Vec<(RegionSpec, i32)>> = vec![];
+    for a0 in &axes0 {
+        for a1 in &axes1 {
+            for d in deltas {
+                rows.push(vec![([*a0, *a1], d)]);
+                if [*a0, *a1] != ordinary {
+                    rows.push(vec![([*a0, *a1], d), (ordinary, 1000)]);
+                }
+                // the degenerate axis second
+                rows.push(vec![([*a1, *a0], d)]);
+            }
+        }
+    }
+    rows.sort();
+    rows.dedup();
+    let mut pts: Vec<i32> = vec![];
+    for c in [-(ONE as i32), -3 * (ONE as i32) / 4, -(ONE as i32) / 2, -(ONE as i32) / 4, 0, ONE as i32 / 8, ONE as i32 / 4, ONE as i32 / 2, 3 * (ONE as i32) / 4, ONE as i32] {
+        pts.extend([c - 1, c, c + 1]);
+    }
+    let pts: Vec<i16> = pts.into_iter().filter(|c| *c >= -(ONE as i32) && *c <= ONE as i32).map(|c| c as i16).collect();
+    run.bound(
+        "b3.degenerate_region_axes",
+        json!({"axis_specs_f2dot14_bits": axes0, "other_axis_specs": axes1, "deltas": deltas, "rows": rows.len(), "locations_per_axis_f2dot14_bits": pts,
+               "oracles": ["compute_delta within sum|delta|*2*2^-16 + 1/2 of the exact specification value", "compute_delta within the same bound (+ f32 precision) of compute_float_delta"]}),
+    );
+    let mut b = VariationStoreBuilder::new(2);
+    let ids: Vec<u32> = rows.iter().map(|row| b.add_deltas(row.iter().map(|(r, d)| (wregion(r), *d)).collect::<Vec<_>>())).collect();
+    let (store, remap) = b.build();
+    let bytes = match dump_table(&store) {
+        Ok(b) => b,
+        Err(e) => {
+            run.machinery_error(&format!("degenerate-region store does not compile: {e:?}"));
+            return;
+        }
+    };
+    let all: Mutex<HashSet<u64>> = Mutex::new(HashSet::new());
+    let non: Mutex<HashSet<u64>> = Mutex::new(HashSet::new());
+    let ignored_outside = AtomicU64::new(0);
+    (0..rows.len()).into_par_iter().for_each(|ri| {
+        let ivs = read_fonts::tables::variations::ItemVariationStore::read(FontData::new(&bytes)).expect("store parses");
+        let vi = remap.get(ids[ri]).expect("id resolves");
+        let ix = read_fonts::tables::variations::DeltaSetIndex { outer: vi.delta_set_outer_index, inner: vi.delta_set_inner_index };
+        let (mut la, mut ln) = (HashSet::new(), HashSet::new());
+        for c0 in &pts {
+            for c1 in &pts {
+                let loc = [*c0, *c1];
+                let coords = [F2Dot14::from_bits(*c0), F2Dot14::from_bits(*c1)];
+                let case = json!({"kind":"compute_delta_degenerate","row":rows[ri].iter().map(|(r, d)| json!({"region": r, "delta": d})).collect::<Vec<_>>(),"loc":loc});
+                let got = match guard(|| ivs.compute_delta(ix, &coords)) {
+                    Ok(Ok(g)) => g,
+                    Ok(Err(e)) => {
+                        run.violation("ItemVariationStore::compute_delta fails on a built store", &format!("{e}"), case);
+                        continue;
+                    }
+                    Err(p) => {
+                        run.violation(&format!("ItemVariationStore::compute_delta panic: {}", p.kind()), &p.message, case);
+                        continue;
+                    }
+                };
+                // which class of axis is involved (for a specific identity)
+                let class = |r: &RegionSpec| -> &'static str {
+                    for (s, p, e) in r.iter() {
+                        if s > p || p > e {
+                            return "axis with start > peak or peak > end";
+                        }
+                        if *s < 0 && *e > 0 && *p != 0 {
+                            return "axis with start < 0 < end and a non-zero peak";
+                        }
+                    }
+                    for (s, p, e) in r.iter() {
+                        if s == p && p == e && *p != 0 {
+                            return "axis with start = peak = end";
+                        }
+                    }
+                    "ordinary or zero-peak axes"
+                };
+                let cls = class(&rows[ri][0].0);
+                match bounded_terms(&rows[ri], &loc, got) {
+                    Ok(_) => {}
+                    Err(why) => run.violation(
+                        &format!("ItemVariationStore::compute_delta differs from the specification's region scalar ({cls})"),
+                        &format!("row {:?} at F2Dot14 bits ({c0}, {c1}): {why}", rows[ri]),
+                        case.clone(),
+                    ),
+                }
+                // an ignored axis evaluated outside its [start, end]
+                if rows[ri][0].0.iter().enumerate().any(|(ax, (s, p, e))| (s > p || p > e || (*s < 0 && *e > 0 && *p != 0)) && (loc[ax] < *s.min(e) || loc[ax] > *e.max(s))) {
+                    ignored_outside.fetch_add(1, Ordering::Relaxed);
+                }
+                // the float path
+                match guard(|| ivs.compute_float_delta(ix, &coords).map(|d| font_types::FWord::new(0).apply_float_delta(d))) {
+                    Ok(Ok(f)) => {
+                        let abs: f64 = rows[ri].iter().map(|(_, d)| (*d as f64).abs()).sum();
+                        let tol = abs * 2.0 / 65536.0 + 0.5 + abs * 4.0 / 16_777_216.0 + 0.01;
+                        if (got as f64 - f as f64).abs() > tol {
+                            run.violation(
+                                &format!("compute_delta and compute_float_delta disagree ({cls})"),
+                                &format!("row {:?} at F2Dot14 bits ({c0}, {c1}): compute_delta = {got}, compute_float_delta = {f}, tolerance {tol:.4}", rows[ri]),
+                                case.clone(),
+                            );
+                        }
+                    }
+                    Ok(Err(e)) => run.violation("ItemVariationStore::compute_float_delta fails on a built store", &format!("{e}"), case.clone()),
+                    Err(p) => run.violation(&format!("ItemVariationStore::compute_float_delta panic: {}", p.kind()), &p.message, case.clone()),
+                }
+                let d = digest_of(&("b3", ri, loc, got));
+                la.insert(d);
+                if got != 0 {
+                    ln.insert(d);
+                }
+            }
+        }
+        all.lock().unwrap().extend(la);
+        non.lock().unwrap().extend(ln);
+    });
+    let n = (rows.len() * pts.len() * pts.len()) as u64;
+    run.evals(n);
+    run.trans(2 * n);
+    run.count("b3.evaluations", n);
+    run.count("b3.ignored_axis_evaluated_outside_its_start_end", ignored_outside.load(Ordering::Relaxed));
+    let (a, nn) = (all.into_inner().unwrap(), non.into_inner().unwrap());
+    run.count("b3.distinct_nonzero_results", nn.len() as u64);
+    run.observe_many(&a, &nn);
+}
+
 fn compute_delta_bounded(run: &Run) {
     let alpha: Vec<Option<i32>> = vec![Some(0), Some(1), Some(-129), Some(32767), Some(0x3FFF_FFFF)];
     let rows = delta_sets_n(&alpha, NR);
@@ -692,6 +871,7 @@ fn body(run: &Run, replay: Option<&Value>) {
     eprintln!("[c11] (a) done at {:.1}s", run.elapsed());
     compute_delta_family(run);
     compute_delta_bounded(run);
+    compute_delta_degenerate(run);
     eprintln!("[c11] (b) done at {:.1}s", run.elapsed());
     norm::normalisation(run);
     eprintln!("[c11] (c) done at {:.1}s", run.elapsed());
@@ -748,6 +928,7 @@ fn replay_case(run: &Run, case: &Value) {
                 }
             }
         }
+        "compute_delta_degenerate" => compute_delta_degenerate(run),
         "compute_delta" => {
             let rows = ds_from_json(&case["row"]);
             let loc = [case["loc"][0].as_i64().unwrap_or(0) as i16, case["loc"][1].as_i64().unwrap_or(0) as i16];
